@@ -1,5 +1,6 @@
 import Treepath.Proofs.MutateLemmas
 import Treepath.Proofs.NaturalNext
+import Treepath.Proofs.AllocUnf
 /- C08 — set_ assigns exactly one slot, or fails without a trace -/
 namespace Treepath.C08
 
@@ -122,5 +123,13 @@ theorem set_parent_is_the_definitions_first (stepsOf : Heap → List (Step Val))
       · simp at hset
     · simp at hset
     · split at hset <;> simp at hset
+
+/-- the premise of the theorem above is met by every document the correspondence runs on: a
+document loaded into the object store unfolds to the JSON it was loaded from -/
+theorem loaded_document_meets_the_premise (h : Heap) (j : J) : Unf (allocJ h j).1 (allocJ h j).2 j :=
+  loaded_document_unfolds h j
+
+/-- non-vacuity, computed: a two-level document -/
+example : (match (allocJ #[] (.obj [("a", .arr [.int 1]), ("b", .null)])).2 with | .ref 1 => true | _ => false) = true := by decide
 
 end Treepath.C08
